@@ -38,11 +38,15 @@ CHECKS = {
     },
     "C08": {
         "text": "Append = parse (Header.v parser), extend the graph, re-serialise (Header.v writer): header_roundtrip states exactly what "
-                "re-serialisation preserves (norm); histories w a{1..3} with bases written by py7zr, by the reference writer (C06 layouts) "
-                "and third-party fixtures are replayed on the implementation and read back after every session by py7zr and by the strict "
-                "reference reader (names, kinds, bytes, mtime, attributes of earlier members).",
-        "note": "Trusted: Coq kernel; Header.v tied by correspondence; Spec.v; tools/ref. Partial: the position arithmetic of "
-                "_prepare_append is covered by exploration (tiling check of the reference reader), not by a theorem yet.",
+                "re-serialisation preserves (norm: all but folder CRCs); Append.v/AppendProofs.v prove that an append session, and any "
+                "number of them, preserves the extraction plans, the position of the old data and the creation/access/write times of "
+                "every earlier entry (append_preserves_plans, append_sessions_preserve, append_position_after_data, "
+                "append_sessions_preserve_times; bases without SubStreamsInfo included). Histories w a{1..3} with bases written by py7zr, "
+                "by the reference writer (C06 layouts) and third-party fixtures are replayed on the implementation and read back after "
+                "every session by py7zr and by the strict reference reader (names, kinds, bytes, mtime/ctime/atime, attributes of "
+                "earlier members; raw preservation of packed bytes).",
+        "note": "Trusted: Coq kernel; Header.v/Append.v hand models tied by correspondence (PackInfo reader/writer additionally by the "
+                "translator); Spec.v; tools/ref. One known finding (names invented for unnamed entries are written back).",
         "technique": "Coq proof of header round trip (what append preserves) + history exploration with an independent reader",
     },
     "C12": {
